@@ -82,6 +82,10 @@ Variants(p) ==
       epSet == IF p.ep # 0 THEN {} ELSE
                { [q |-> [p EXCEPT !.ep = s], rel |-> IF EpLegal([p EXCEPT !.ep = s]) THEN "diff" ELSE "free", why |-> "en-passant target set"] :
                    s \in { t \in Squares : LegalPosition([p EXCEPT !.ep = t]) /\ t # 0 /\ RankOf(t) = (IF p.stm = "w" THEN 5 ELSE 2) } }
+      \* two components at once: another set of rights together with the en-passant state (keys of different tables must not cancel)
+      both == IF p.ep = 0 THEN {} ELSE
+              { [q |-> [p EXCEPT !.castle = R, !.ep = 0], rel |-> IF EpLegal(p) \/ R # p.castle THEN "diff" ELSE "free", why |-> "castling rights and en-passant target changed together"] :
+                  R \in (SUBSET HomeRights(p.board)) \ {p.castle} }
       flip == { [q |-> [p EXCEPT !.stm = Other(p.stm), !.ep = 0], rel |-> "diff", why |-> "side to move flipped"] }
       clocks == { [q |-> [p EXCEPT !.half = p.half + 7, !.full = p.full + 11], rel |-> "same", why |-> "clocks changed"] }
                 \cup { [q |-> [p EXCEPT !.half = h, !.full = (IF p.full > h \div 2 + 1 THEN p.full ELSE h \div 2 + 1)], rel |-> "same", why |-> "clocks changed"] :
@@ -100,7 +104,7 @@ Variants(p) ==
                        st \in { x \in evenSq \X evenSq : x[1] < x[2] } }
       exchanged == { [q |-> Bare(Put(Put(p.board, st[1], p.board[st[2]]), st[2], p.board[st[1]])), rel |-> "diff", why |-> "two pieces exchanged"] :
                        st \in { x \in evenSq \X evenSq : x[1] < x[2] /\ p.board[x[1]] # p.board[x[2]] } }
-  IN { v \in rightsDrop \cup rightsAdd \cup epClear \cup epSet \cup flip \cup clocks \cup moved \cup swapped \cup recolour1 \cup recolour2 \cup exchanged : LegalPosition(v.q) }
+  IN { v \in rightsDrop \cup rightsAdd \cup both \cup epClear \cup epSet \cup flip \cup clocks \cup moved \cup swapped \cup recolour1 \cup recolour2 \cup exchanged : LegalPosition(v.q) }
 EmitHash(p) ==
   \A v \in Variants(p) :
     \* a variant that removes rights/ep from p is compared with p itself; p for 'moved' has rights cleared on both sides
@@ -151,6 +155,7 @@ Next ==
                        /\ (IF Rec[l].ev = "Move" /\ (l % Stride) = Phase THEN EmitSan(Norm(Rec[l].next)) ELSE TRUE)
     [] Mode = "hash" -> /\ l <= Len(Rec) /\ l' = l + 1 /\ UNCHANGED pos
                         /\ (IF Rec[l].ev = "Move" /\ (l % Stride) = Phase /\ LegalPosition(Norm(Rec[l].next)) THEN EmitHash(Norm(Rec[l].next)) ELSE TRUE)
+                        /\ (IF Rec[l].ev = "Reset" /\ (l % Stride) = Phase /\ LegalPosition(Norm(Rec[l].pos)) THEN EmitHash(Norm(Rec[l].pos)) ELSE TRUE)
     [] Mode = "fen" -> /\ l <= Len(FenSeq) /\ l' = l + 1 /\ UNCHANGED pos
                        /\ (IF (l % Stride) = Phase THEN EmitFen(FenSeq[l]) ELSE TRUE)
     [] Mode = "mutate" -> /\ l <= Len(Rec) /\ l' = l + 1 /\ UNCHANGED pos
